@@ -12,6 +12,10 @@ import (
 	"context"
 	"crypto/sha256"
 	"fmt"
+	"github.com/sourcenetwork/defradb/internal/datastore"
+	netConfig "github.com/sourcenetwork/defradb/net/config"
+	"github.com/sourcenetwork/defradb/node"
+	"os"
 	"strings"
 	"time"
 
@@ -186,6 +190,7 @@ func runKeyType(ctx context.Context, out *vc.Out, r *vc.Rng, kt crypto.KeyType, 
 		out.Count("op:" + strings.Fields(op)[0])
 		out.Nontrivial(fmt.Sprintf("%s:%d", kt, out.Lines))
 	}
+	defer receivePath(ctx, out, kt, col, recs, raws, heads, emit)
 	for _, rec := range recs {
 		hasSig := "0"
 		if rec.signed {
@@ -214,7 +219,9 @@ func runKeyType(ctx context.Context, out *vc.Out, r *vc.Rng, kt crypto.KeyType, 
 		someCid := rec.cid
 		tampers := []tamper{
 			{"delta-priority", func(b *coreblock.Block) { b.Delta.GetDelta().SetPriority(b.Delta.GetPriority() + 1) }},
-			{"heads-add", func(b *coreblock.Block) { b.Heads = append(append([]cidlink.Link{}, b.Heads...), cidlink.Link{Cid: someCid}) }},
+			{"heads-add", func(b *coreblock.Block) {
+				b.Heads = append(append([]cidlink.Link{}, b.Heads...), cidlink.Link{Cid: someCid})
+			}},
 			{"links-drop", func(b *coreblock.Block) {
 				if len(b.Links) > 0 {
 					b.Links = b.Links[1:]
@@ -295,6 +302,73 @@ func runKeyType(ctx context.Context, out *vc.Out, r *vc.Rng, kt crypto.KeyType, 
 			emit("sync tamper="+st.name+" at=head", errClass(defranet.VerifSyncDAG(ctx, serviceWith(ctx, r2), tb)))
 		}
 	}
+}
+
+// receivePath: a victim node with a real peer receives forged heads through the push-log handler — twice each, as
+// a replicator retry or a second route (pubsub and replicator) delivers them. The forged block stays in the victim's
+// block store after the first, rejected delivery; the second one must be rejected all the same.
+func receivePath(ctx context.Context, out *vc.Out, kt crypto.KeyType, col client.Collection, recs map[string]*blockRec,
+	raws map[string][]byte, heads []cid.Cid, emit func(op, res string)) {
+	dir, err := os.MkdirTemp("", "vsign")
+	must(err)
+	defer os.RemoveAll(dir)
+	v, err := node.New(ctx,
+		node.WithStoreType(node.BadgerStore), node.WithBadgerInMemory(true), node.WithStorePath(dir),
+		node.WithDisableAPI(true), node.WithDisableP2P(false),
+		netConfig.WithListenAddresses("/ip4/127.0.0.1/tcp/0"), netConfig.WithEnablePubSub(false),
+		db.WithEnabledSigning(true))
+	must(err)
+	must(v.Start(ctx))
+	defer func() { _ = v.Close(ctx) }()
+	_, err = v.DB.AddSchema(ctx, `type Doc { name: String age: Int points: Int @crdt(type: pcounter) }`)
+	must(err)
+	vcol, err := v.DB.GetCollectionByName(ctx, "Doc")
+	must(err)
+	// what the forged heads link to is available locally (as after an earlier sync)
+	bstore := datastore.BlockstoreFrom(v.DB.Rootstore())
+	for c, raw := range raws {
+		cc, err := cid.Decode(c)
+		must(err)
+		b, err := blocks.NewBlockWithCid(raw, cc)
+		must(err)
+		must(bstore.Put(ctx, b))
+	}
+	sender, err := identity.Generate(crypto.KeyTypeEd25519)
+	must(err)
+	_ = sender
+	from := v.Peer.PeerInfo().ID // any well-formed peer id serves as the sender
+	n := 0
+	for _, h := range heads {
+		rec := recs[h.String()]
+		if rec == nil || rec.kind != "composite" || !rec.signed || n >= 3 {
+			continue
+		}
+		n++
+		docID := string(rec.block.Delta.GetDocID())
+		tb := rec.block.Clone()
+		tb.Signature = rec.block.Signature
+		tb.Delta.GetDelta().SetPriority(tb.Delta.GetPriority() + 1)
+		traw, err := tb.Marshal()
+		must(err)
+		tl, err := tb.GenerateLink()
+		must(err)
+		for k := 1; k <= 2; k++ {
+			err := v.Peer.(*defranet.Peer).VerifReceivePushLog(ctx, from, docID, tl.Cid, vcol.Version().CollectionID, traw)
+			res := errClass(err)
+			if res == "ok" {
+				out.Oracle(out.Lines, fmt.Sprintf("[forged-accepted] key type %s: delivery %d of a pushed head whose delta priority was changed under the original signature is accepted by the receive path", kt, k))
+			}
+			emit(fmt.Sprintf("recv tamper=delta-priority delivery=%d", k), res)
+		}
+		// and nothing of it reached the document
+		time.Sleep(150 * time.Millisecond)
+		did, err := client.NewDocIDFromString(docID)
+		must(err)
+		if _, err := vcol.Get(ctx, did, true); err == nil {
+			out.Oracle(out.Lines, fmt.Sprintf("[forged-accepted] key type %s: a document exists on the receiver after nothing but forged deliveries", kt))
+		}
+	}
+	_ = col
 }
 
 func main() {
